@@ -66,15 +66,11 @@ def r32(ctx, res):
                           "nested in the other (or overlapping with its corner inside) loses vertices of the result" % (owner, other),
                           construct="%s: vertex family of %s" % (fi.short, owner))
     if a in vert and b in vert:
-        n += 1
         t1 = txt(vert[a])
         t2 = alpha_swap(vert[b], a, b, {vert[b].target.id: vert[a].target.id})
-        same = t1 == t2
-        res.ob("R3.2", fi.where(vert[a]), "%s: the two vertex families are alpha-equivalent under %s<->%s" % (fi.short, a, b), same,
-               "identical up to renaming" if same else "differ: `%s` vs `%s`" % (t1[:60], t2[:60]))
-        if not same:
-            res.violation("R3.2", fi, vert[b], "the two vertex-collection loops of %s are not mirror images of each other" % fi.short,
-                          construct="%s: vertex families differ" % fi.short)
+        if t1 != t2:
+            res.note("%s: the two vertex-collection loops are not textual mirror images (both have the required shape "
+                     "`for p in X.points: if p in Y: add p`)" % fi.short)
     n += 1
     ok = False
     why = "no loop over an edge cycle feeding the crossing helper"
@@ -132,14 +128,31 @@ def r32(ctx, res):
         n += report_bypass(ctx, res, fj, "R3.2", list(owners.values()), fj.node.body, "faces of each polyhedron clipped by the other")
     if p in owners and q in owners:
         n += 1
-        t1 = txt(owners[p])
-        t2 = alpha_swap(owners[q], p, q, {})
-        same = t1 == t2
-        res.ob("R3.2", fj.where(owners[p]), "%s: both face loops feed the same sets the same way" % fj.short, same,
-               "alpha-equivalent under %s<->%s" % (p, q) if same else "the loops differ")
+
+        def routing(lp):
+            """type of the clipped face -> set it is added to"""
+            m = {}
+            for st in ast.walk(lp):
+                if isinstance(st, ast.If):
+                    for test, body in if_chain(st)[0]:
+                        for c in ast.walk(test):
+                            if isinstance(c, ast.Call) and isinstance(c.func, ast.Name) and c.func.id == "isinstance" and len(c.args) == 2:
+                                tys = [c.args[1].id] if isinstance(c.args[1], ast.Name) else [e.id for e in getattr(c.args[1], "elts", []) if isinstance(e, ast.Name)]
+                                for b_ in body:
+                                    for cc in ast.walk(b_):
+                                        if isinstance(cc, ast.Call) and isinstance(cc.func, ast.Attribute) and cc.func.attr == "add" \
+                                                and isinstance(cc.func.value, ast.Name):
+                                            for t_ in tys:
+                                                m[t_] = cc.func.value.id
+            return m
+
+        r1, r2 = routing(owners[p]), routing(owners[q])
+        same = r1 == r2 and set(r1) >= {"Point", "Segment", "ConvexPolygon"}
+        res.ob("R3.2", fj.where(owners[p]), "%s: both face loops route the clipped faces to the same sets" % fj.short, same,
+               "routing %s" % r1 if same else "%s vs %s" % (r1, r2))
         if not same:
-            res.violation("R3.2", fj, owners[q], "the two face-clipping loops of %s are not mirror images (different type switch / "
-                          "different target sets)" % fj.short, construct="%s: face loops differ" % fj.short)
+            res.violation("R3.2", fj, owners[q], "the two face-clipping loops of %s route their results differently (%s vs %s): parts found "
+                          "from one side only are dropped or mis-filed" % (fj.short, r1, r2), construct="%s: face loops differ" % fj.short)
     ctx.require(res, "R3.2", n, 7, "swap-closure obligations")
 
 
